@@ -1275,7 +1275,7 @@ func forEachCondImplied(b *ssa.BasicBlock, depth int, f func(cd facts.Cond)) {
 		}
 		var call *ssa.Call
 		idx := 0
-		wantNil, wantTrue := false, false
+		wantNil, wantTrue, wantFalse := false, false, false
 		if x, isNil, ok := facts.NilCheck(cd); ok && isNil {
 			switch y := facts.Resolve(x).(type) {
 			case *ssa.Call:
@@ -1285,7 +1285,7 @@ func forEachCondImplied(b *ssa.BasicBlock, depth int, f func(cd facts.Cond)) {
 				idx = y.Index
 			}
 			wantNil = true
-		} else if cd.Pos {
+		} else {
 			switch y := facts.Resolve(cd.V).(type) {
 			case *ssa.Call:
 				call = y
@@ -1293,7 +1293,16 @@ func forEachCondImplied(b *ssa.BasicBlock, depth int, f func(cd facts.Cond)) {
 				call, _ = y.Tuple.(*ssa.Call)
 				idx = y.Index
 			}
-			wantTrue = true
+			if cd.Pos {
+				wantTrue = true
+			} else {
+				wantFalse = true
+			}
+			if call != nil && idx < call.Call.Signature().Results().Len() {
+				if bt, ok := call.Call.Signature().Results().At(idx).Type().Underlying().(*types.Basic); !ok || bt.Kind() != types.Bool {
+					call = nil
+				}
+			}
 		}
 		if call == nil {
 			continue
@@ -1325,6 +1334,11 @@ func forEachCondImplied(b *ssa.BasicBlock, depth int, f func(cd facts.Cond)) {
 					continue
 				}
 			}
+			if wantFalse {
+				if cst, ok := rv.(*ssa.Const); ok && cst.Value != nil && cst.Value.ExactString() == "true" {
+					continue
+				}
+			}
 			n++
 			here := map[string]facts.Cond{}
 			forEachCondImplied(r.Block(), depth-1, func(c2 facts.Cond) { here[key(c2)] = c2 })
@@ -1352,4 +1366,103 @@ func forEachCondImplied(b *ssa.BasicBlock, depth int, f func(cd facts.Cond)) {
 			}
 		})
 	}
+}
+
+// forEachCallContext calls f once per calling context of block b with the
+// branch conditions known there (b's own, and up the chain of private helpers
+// those at each call site); while f runs the helpers' parameters render as the
+// terms of the arguments of that chain of calls (ParamSubst), so that terms of
+// the helper's values can be compared with terms of the caller's.
+func forEachCallContext(b *ssa.BasicBlock, depth int, f func(conds []facts.Cond)) {
+	own := facts.CondsAtDeep(b)
+	h := outermost(b.Parent())
+	sites := privateCallSites(h)
+	if depth <= 0 || len(sites) == 0 {
+		f(own)
+		return
+	}
+	for _, s := range sites {
+		s := s
+		forEachCallContext(s.Block(), depth-1, func(up []facts.Cond) {
+			withParams(h, s, func() {
+				f(append(append([]facts.Cond{}, own...), up...))
+			})
+		})
+	}
+}
+
+// normTerm: a term with the decorations of "address of the spill cell of" and
+// "load of" removed, for comparing a helper's view of a struct-valued
+// parameter with the caller's variable.
+func normTerm(v ssa.Value) string {
+	t := facts.Term(v)
+	for i := 0; i < 4; i++ {
+		switch {
+		case strings.HasPrefix(t, "&(") && strings.HasSuffix(t, ")"):
+			t = t[2 : len(t)-1]
+		case strings.HasPrefix(t, "*"):
+			t = t[1:]
+		default:
+			return t
+		}
+	}
+	return t
+}
+
+// flushRequestBuilder: the function that builds the request blobWriter.flush
+// sends: flush itself, or the private helper (reached from flush) that assigns
+// the request's ContentLength.
+func flushRequestBuilder(flush *ssa.Function) *ssa.Function {
+	setsCL := func(f *ssa.Function) bool {
+		for _, b := range f.Blocks {
+			for _, in := range b.Instrs {
+				if st, ok := in.(*ssa.Store); ok {
+					if _, fld, isF := facts.FieldOf(st.Addr); isF && fld == "ContentLength" {
+						return true
+					}
+				}
+			}
+		}
+		return false
+	}
+	if setsCL(flush) {
+		return flush
+	}
+	for _, f := range withHelpers(flush) {
+		if f.Parent() == nil && f != flush && setsCL(f) {
+			return f
+		}
+	}
+	return flush
+}
+
+// cmpLenFirst is facts.Cmp with a len(...) operand moved to the left
+// (`n > len(xs)` reads `len(xs) < n`).
+func cmpLenFirst(cd facts.Cond) (ssa.Value, token.Token, ssa.Value, bool) {
+	x, op, y, ok := facts.Cmp(cd)
+	if !ok {
+		return nil, 0, nil, false
+	}
+	isLen := func(v ssa.Value) bool {
+		call, ok := facts.Resolve(v).(*ssa.Call)
+		if !ok {
+			return false
+		}
+		bi, ok := call.Call.Value.(*ssa.Builtin)
+		return ok && bi.Name() == "len"
+	}
+	if !isLen(x) && isLen(y) {
+		x, y = y, x
+		switch op {
+		case token.LSS:
+			op = token.GTR
+		case token.LEQ:
+			op = token.GEQ
+		case token.GTR:
+			op = token.LSS
+		case token.GEQ:
+			op = token.LEQ
+		}
+	}
+	return facts.Resolve(x), op, y, true
 }
